@@ -10,7 +10,7 @@ test=$(grep -o 'func Test[A-Za-z0-9_]*' $seed/demo_test.go | head -1 | sed 's/fu
 cp $seed/demo_test.go $wt/jsonschema/zz_seed_demo_test.go
 race=""; grep -qi '"demo_cmd".*-race' $seed/meta.json && race="-race"
 (cd $wt && go test $race -vet=off -count=1 -run "^${test}\$" ./jsonschema/ >/dev/null 2>&1); nop=$?
-if ! git -C $wt apply $seed/patch.diff 2>/dev/null; then echo "$seed PATCH-DOES-NOT-APPLY"; exit 0; fi
+if ! git -C $wt apply $seed/patch.diff 2>/dev/null; then if ! git -C $wt apply --3way $seed/patch.diff >/dev/null 2>&1; then echo "$seed PATCH-DOES-NOT-APPLY"; exit 0; fi; git -C $wt reset -q; fi
 (cd $wt && go test $race -vet=off -count=1 -run "^${test}\$" ./jsonschema/ >/dev/null 2>&1); wp=$?
 rm $wt/jsonschema/zz_seed_demo_test.go
 (cd $wt && go test -vet=off -count=1 ./... >/dev/null 2>&1); suite=$?
